@@ -44,6 +44,13 @@ C19Fam ==
 \* config->alg: the pair must pass the same table as setkey (HS256 with an HS512 key is refused)
 RelabelProgs == { <<CbAlg(a)>> : a \in {"HS256", "HS512", "HS384", "none", "RS256"} }
                 \cup { <<CbKey(1), CbAlg(a)>> : a \in {"HS256", "HS512", "none"} } \cup { <<CbAlg("HS256"), CbKey(1)>> }
+\* the callback replaces ONLY the key: the default key's alg attribute says nothing about the new key (with no
+\* attribute of its own and no algorithm named, the new key is not admitted; with an attribute, that one counts)
+KeyOnlyScripts ==
+  LET K32a == OctKey(32, "b", "HS256", NONE) K64n == OctKey(64, "b", NONE, NONE) IN
+  { <<LoadOp(<<KOct, KOct2, K32a, K64n>>), CNewOp, CSetKeyOp("none", d), CSetCbOp(<<CbKey(n)>>), VerifyOpX(t, 0, 1)>> :
+      d \in {1, 2}, n \in {0, 1, 2, 3},
+      t \in { Tok(a, <<>>, <<IntM("exp", FutW)>>, Sig("valid", a, k)) : a \in {"HS256", "HS512"}, k \in {KOct, KOct2, K32a, K64n} } }
 RelabelToks == { Tok(a, <<>>, <<IntM("exp", FutW)>>, Sig("valid", a, KOct2)) : a \in {"HS256", "HS512", "HS384"} }
 RelabelScripts ==
   { <<LoadOp(<<KOct, KOct2>>), CNewOp, CSetKeyOp("none", 1), CSetCbOp(p), VerifyOpX(t, 0, 1)>> : p \in RelabelProgs, t \in RelabelToks }
@@ -78,5 +85,5 @@ FaultScripts ==
                << <<StepDel("clm", NONE)>>, <<IntM("exp", PastW), StrM("iss", "you")>> >>,
                << <<StepSet("clm", Val("str", "aud", "x", 0))>>, <<IntM("exp", FutW)>> >> } }
 MCSpecFault == ISpecP(script \in FaultScripts)
-MCSpec == ISpecP(InFam(C19Fam) \/ script \in RelabelScripts \/ script \in SeqScripts \/ script \in CtxScripts)
+MCSpec == ISpecP(InFam(C19Fam) \/ script \in RelabelScripts \/ script \in SeqScripts \/ script \in CtxScripts \/ script \in KeyOnlyScripts)
 =============================================================================
